@@ -522,7 +522,7 @@ impl Machine {
             match name {
                 // ---------------- constructors
                 "b_new" => {
-                    let b = Bytes::new();
+                    let b = if op.mode == 1 { Bytes::default() } else { Bytes::new() };
                     newids.push(self.put(H::B(b)));
                 }
                 "b_static" => {
@@ -558,7 +558,17 @@ impl Machine {
                     newids.push(self.put(H::B(b)));
                 }
                 "b_from_iter" => {
-                    let b: Bytes = d.iter().copied().collect();
+                    let b: Bytes = match op.mode {
+                        1 => {
+                            let mut it = d.iter().copied();
+                            std::iter::repeat(()).take(usize::MAX).map_while(move |_| it.next()).collect()
+                        }
+                        2 => {
+                            let mut it = d.iter().copied();
+                            std::iter::from_fn(move || it.next()).collect()
+                        }
+                        _ => d.iter().copied().collect(),
+                    };
                     newids.push(self.put(H::B(b)));
                 }
                 "b_from_owner" => {
@@ -577,7 +587,7 @@ impl Machine {
                     newids.push(self.put(H::B(b)));
                 }
                 "m_new" => {
-                    newids.push(self.put(H::M(BytesMut::new())));
+                    newids.push(self.put(H::M(if op.mode == 1 { BytesMut::default() } else { BytesMut::new() })));
                 }
                 "m_with_capacity" => {
                     newids.push(self.put(H::M(BytesMut::with_capacity(x))));
@@ -595,6 +605,15 @@ impl Machine {
                             let mut m = BytesMut::new();
                             std::fmt::Write::write_str(&mut m, std::str::from_utf8(&d).unwrap()).unwrap();
                             m
+                        }
+                        // honest iterators whose size hint is correct but loose: (0, Some(usize::MAX)) and (0, None)
+                        5 => {
+                            let mut it = d.iter().copied();
+                            std::iter::repeat(()).take(usize::MAX).map_while(move |_| it.next()).collect::<BytesMut>()
+                        }
+                        6 => {
+                            let mut it = d.iter().copied();
+                            std::iter::from_fn(move || it.next()).collect::<BytesMut>()
                         }
                         _ => BytesMut::from(&d[..]),
                     };
@@ -788,6 +807,18 @@ impl Machine {
                                 BufMut::put_slice(&mut r, &d)
                             }
                             9 => m.put(Bytes::copy_from_slice(&d).chain(&[][..])),
+                            12 => {
+                                use std::fmt::Write as _;
+                                write!(m, "{}{}", std::str::from_utf8(&d[..d.len() / 2]).unwrap(), std::str::from_utf8(&d[d.len() / 2..]).unwrap()).unwrap()
+                            }
+                            10 => {
+                                let mut it = d.iter().copied();
+                                m.extend(std::iter::repeat(()).take(usize::MAX).map_while(move |_| it.next()))
+                            }
+                            11 => {
+                                let mut it = d.iter().copied();
+                                m.extend(std::iter::from_fn(move || it.next()))
+                            }
                             _ => m.extend_from_slice(&d),
                         },
                         _ => unreachable!(),
@@ -859,7 +890,7 @@ impl Machine {
                         H::M(m) => m,
                         _ => unreachable!(),
                     };
-                    newids.push(self.put(H::B(m.freeze())));
+                    newids.push(self.put(H::B(if op.mode == 1 { Bytes::from(m) } else { m.freeze() })));
                 }
                 "m_into_vec" => {
                     let m = match self.hs[h].take().unwrap() {
